@@ -51,7 +51,7 @@ def cases(draw):
     # "all positive per-reading noise assignments": the whole problem (noises and prior) scaled by a power of ten,
     # so that clamps / floors / absolute tolerances inside the filter show up
     scale = draw(st.sampled_from([1.0, 1.0, 1.0, 1e-14, 1e-9, 1e-4, 1e5]))
-    return {"model": spec, "updates": ups, "scale": scale}
+    return {"model": spec, "updates": ups, "scale": scale, "shadow_after": draw(st.sampled_from([False, False, True]))}
 
 
 def case(spec, ctx):
@@ -65,6 +65,16 @@ def case(spec, ctx):
     with ctx.watchdog(20):
         with ctx.formak("compile_ekf", spec):
             f = models.compile_py_ekf(m)
+        if spec.get("shadow_after"):
+            # a second filter with the same symbols and the same sensor / reading names but other expressions is built in
+            # the same process AFTER this one; this one is then used: instances must not share compiled state
+            try:
+                models.compile_py_ekf(models.shadow_of(m, "sensors"))
+                ctx.event("shadow_filter_built_after")
+            except ctxmod.CaseTimeout:
+                raise
+            except Exception:
+                ctx.event("shadow_not_accepted")
 
     nontrivial = False
     for up in spec["updates"]:
